@@ -112,7 +112,21 @@ fn main() {
         }
         ("C05", None) => checks::cfgstate::run_c05(&ctx),
         ("C06", None) => checks::cfgstate::run_c06(&ctx),
-        ("C07", None) => checks::cfgstate::run_c07a(&ctx),
+        ("C07", None) => {
+            if std::env::var("VERIF_SHARD").is_ok() {
+                checks::c07b::run(&ctx);
+                unreachable!();
+            }
+            let mut cov = common::Coverage::aggregate();
+            cov.absorb("a-main-state", checks::cfgstate::run_c07a(&ctx));
+            cov.absorb("b-worker-behaviour", checks::c07b::run(&ctx));
+            cov
+        }
+        ("C07", Some(r)) if r["case"]["sim"] == "c07b" => checks::c07b::replay(&ctx, &r["case"]),
+        ("C07DBG", _) => {
+            checks::c07b::debug(&args);
+            std::process::exit(0);
+        }
         ("C05" | "C06" | "C07", Some(r)) => checks::cfgstate::replay(&ctx, &r["case"]),
         (p, _) => machinery_error(&format!("unknown property {p}")),
     };
